@@ -193,10 +193,11 @@ func Trees(thorough bool, emit func(*N)) {
 		}
 	}
 	if thorough {
-		ls := Leaves(T, false)
+		ls := Leaves(T, true)
 		for _, a := range ls {
 			for _, b := range ls {
 				emit(st(U, a, b))
+				emit(st(U, st(T, a), st(T, st(U, b))))
 			}
 		}
 	}
